@@ -210,6 +210,10 @@ func (f *Frame) setPayloadLength(n int) *Frame {
 }
 
 func (f *Frame) SetPayload(b []byte) *Frame {
+	if len(*f) < frameMaxHeaderLength {
+		// A recycled frame can be shorter than the largest header written by setPayloadLength.
+		*f = util.ExtendSlice(*f, frameMaxHeaderLength)
+	}
 	f.setPayloadLength(len(b)) // set the length as it's used by `payloadOffset`.
 
 	*f = util.ExtendSlice(*f, f.payloadOffset()+len(b))
